@@ -4,6 +4,56 @@
 //
 // Every string in the output is "latin-1 lifted": one rune per byte, so that
 // arbitrary byte strings survive JSON.
+//
+// Usage-pattern audit (round 3).  What the anchored packages export, the state
+// behind it, and which stream uses it how.  "fresh" = one object per case,
+// registrations first, then requests; "long-lived" = registrations and
+// requests interleaved on one object.
+//
+//  API / callback / state            | shapes it can take                         | exercised by
+//  ----------------------------------+--------------------------------------------+----------------------------------------------
+//  Mux.Prefix/Exact/Dir              | new / duplicate / "" / Dir half-registered | mux-small, mux-triples, mux-rand (fresh);
+//   state: exacts, prefixes, trie    | (Exact ok, Prefix refused)                 | steps-mux (long-lived, request between any two
+//   (per Mux, three structures that  |                                            | registrations, re-registration after a refusal)
+//   must stay in step)               |                                            |
+//  Mux.Route/Serve                   | exact hit / longest prefix / miss; handler | same streams; handler results other than nil:
+//                                    | returns nil / Miss / error                 | NOT exercised on Mux (Serve returns f(c) as is)
+//  trieNode.add/find (via shim)      | every branch of add (split, re-parent,     | corpus, trie-rand (arbitrary bytes), mux-* dump
+//                                    | phantom node becoming a hit)               | comparison node by node
+//  trie.Trie Add/Find/FindExact      | new / conflict / empty value (panic) /     | seg-small, seg-triples, seg-rand (fresh)
+//                                    | empty route; Find aliases its argument     | (the harness passes copies; aliasing not probed)
+//  Router.Index/Default              | set / set again (last wins) / nil Func     | router-rich (repeated calls, nil resets),
+//   state: index, miss (per Router)  | resets / handler is a sub-router           | steps-router (between requests), corpus
+//  Router.File/MethodFile/Get/Post/  | new / duplicate (error, first kept) / nil  | router, router-http, router-rich, entry, corpus;
+//   Dir/DirService/JSONCall/Call     | handler (panic) / empty route (panic) /    | registration after a refused or panicking one:
+//   state: nodes map + trie.Trie     | Call on a duplicate (panic)                | every stream (ops shuffled); after serving
+//   (must stay in step)              | any method string, compared exactly        | started: steps-router
+//  Router.Serve                      | index / longest route / file vs dir /      | the same; methods GET POST "" PUT get HEAD
+//   state: c.routePos (per request,  | method refused / default / Miss            | DELETE OPTIONS; leaves returning nil, Miss,
+//   in the CONTEXT, shared by every  | leaf result: nil, Miss, coded errors,      | NotFound, Internal, Unauthorized, InvalidArg,
+//   service the context is handed to)| plain error, panic (nil func)              | plain; number of leaves run per request
+//  one *C through several services   | router misses after shifting the context,  | seq-direct (r1.Serve(c); r2.Serve(c); ...),
+//                                    | next router / next tier gets the same *C   | seq-tiers (ServiceSet{Auth,Resource,Guest,User,
+//                                    |                                            | Admin} all routers, nil tiers), corpus  [FINDING]
+//  one Router mounted twice          | same sub-router under two Dirs / as two    | router (random 1000+j handlers), seq-* (a router
+//                                    | tiers                                      | listed twice in a sequence)
+//  ServiceSet.Serve/ServeInternal    | Auth nil (Serve panics, ServeInternal      | tiers-all (exhaustive), tiers-rand
+//   fields Auth Resource Guest User  | guards) / each tier nil, miss, nil, error  | typed-nil tiers (a nil Func inside the Service
+//   Admin IsAdmin InternalSignIn     | Auth.Serve: Miss, nil, error; Setup: nil,  | interface): NOT exercised - serveService tests
+//   (stateless struct; identity in   | error, changes identity; tier changes      | the interface only and such a tier panics when
+//   the context)                     | identity; IsAdmin nil/true/false/level/    | reached
+//                                    | name; SignIn nil/ok/error; path "/", else  | IsAdmin callbacks that modify the context: NOT
+//                                    |                                            | exercised (modelled as pure)
+//  HostMux.Set/Serve                 | new / re-bound (last wins) / "" / case /   | host (fresh), entry-host (real server),
+//   state: map (per HostMux)         | port / trailing dot; Set(host, nil) panics | steps-host (long-lived); nil service: NOT exercised
+//                                    | at request time                            |
+//  aries.Serve / Func.ServeHTTP      | Func fast path vs Service wrapper;         | router-http (wrapper), entry (Func), raw request
+//  NewContext / ErrCode              | error -> status table                      | lines over TCP
+//  C.Rel/RelRoute/ShiftRoute/        | read by leaves (Rel), by routers           | Rel at every leaf; Current, negative ShiftRoute:
+//   PathIsDir/Current                |                                            | NOT exercised (not used by the routing code)
+//  concurrency                       | serving only (no lock in the code)         | conc (8 goroutines, -race) on finished objects
+//  thresholds in the anchored files  | len(s)==0, i==m / i==n in trieNode.add,    | all sides by mux-small (every pair of strings
+//                                    | routePos >= size, value == ""              | over {a,b,/}^(1..3)), seg-rand, router paths
 package main
 
 import (
@@ -84,6 +134,7 @@ type ReqObs struct {
 	Tag int    `json:"tag"` // leaf that ran, -1 none
 	Rel string `json:"rel"` // c.Rel() seen by the leaf
 	Err string `json:"err"` // nil | miss | badmethod | panic | other
+	N   int    `json:"n"`   // how many leaves ran for this request
 }
 
 type Beh struct {
@@ -140,6 +191,40 @@ type EObs struct {
 	Rel     string   `json:"rel"`
 }
 
+// LeafObs is one leaf invocation.
+type LeafObs struct {
+	Tag int    `json:"tag"`
+	Rel string `json:"rel"`
+}
+
+// SeqObs is what one request did to a sequence of routers that were all
+// handed the SAME context, one after the other, until one did not miss.
+type SeqObs struct {
+	Hits     []LeafObs `json:"hits"`     // every leaf that ran, in order
+	Err      string    `json:"err"`      // the final result
+	RelAfter string    `json:"relafter"` // c.Rel() after the last Serve returned
+}
+
+// Step is one operation on a long-lived Mux / Router / HostMux: a
+// registration, or (Serve set) a request.
+type Step struct {
+	Mux    *MuxOp    `json:"mux,omitempty"`
+	Rop    *RouterOp `json:"rop,omitempty"`
+	HSet   *HostSet  `json:"hset,omitempty"`
+	Serve  bool      `json:"serve,omitempty"`
+	Path   string    `json:"path,omitempty"` // mux: c.Path; router: URL path; host: Req.Host
+	Method string    `json:"method,omitempty"`
+}
+
+// StepObs: a registration's flag (1 ok, 0 refused, 2 panic), or what the request reached.
+type StepObs struct {
+	Ok  int    `json:"ok"`
+	Tag int    `json:"tag"`
+	Rel string `json:"rel,omitempty"`
+	Err string `json:"err,omitempty"`
+	N   int    `json:"n"` // number of handlers that ran for the request
+}
+
 type HostSet struct {
 	H string `json:"h"`
 	F int    `json:"f"`
@@ -161,6 +246,8 @@ type Obs struct {
 	SFinds []SegFind `json:"sfinds,omitempty"`
 	Hosts  []int     `json:"hosts,omitempty"`
 	Entry  []EObs    `json:"entry,omitempty"`
+	Seqs   []SeqObs  `json:"seqs,omitempty"`
+	Steps  []StepObs `json:"steps,omitempty"`
 }
 
 type Case struct {
@@ -192,6 +279,11 @@ type Case struct {
 
 	HSets []HostSet `json:"hsets,omitempty"`
 	HReqs []string  `json:"hreqs,omitempty"`
+
+	Seq   []int  `json:"seq,omitempty"`   // seq: router indices tried in order on ONE context (tiers mode: auth, resource, guest, user, admin; -1 none)
+	Mode  string `json:"mode,omitempty"`  // seq: direct | tiers
+	On    string `json:"on,omitempty"`    // steps: mux | router | host
+	Steps []Step `json:"steps,omitempty"` // steps: registrations interleaved with requests on one object
 
 	HMux bool  `json:"hmux,omitempty"` // entry: a HostMux in front; hsets bind hosts to router F
 	Raws []Raw `json:"raws,omitempty"`
@@ -285,6 +377,8 @@ func leafError(class string) error {
 	switch class {
 	case "":
 		return nil
+	case "miss":
+		return aries.Miss // the leaf itself declines
 	case "notfound":
 		return errcode.Add(errcode.NotFound, &leafErr{class})
 	case "internal":
@@ -419,6 +513,15 @@ type leafHit struct {
 
 // buildRouters makes the routers of a case; *hit receives the leaf that ran.
 func buildRouters(c *Case, hit **leafHit) ([]*aries.Router, [][]int) {
+	if hit == nil {
+		return buildRoutersRec(c, nil)
+	}
+	return buildRoutersRec(c, func(lh *leafHit) { *hit = lh })
+}
+
+// buildRoutersRec makes the routers of a case; rec is told about every leaf
+// invocation, in order (nil: the leaf leaves its record in cc.Data).
+func buildRoutersRec(c *Case, rec func(*leafHit)) ([]*aries.Router, [][]int) {
 	n := len(c.Routers)
 	routers := make([]*aries.Router, n)
 	for i := range routers {
@@ -435,8 +538,8 @@ func buildRouters(c *Case, hit **leafHit) ([]*aries.Router, [][]int) {
 		e := op.E
 		return func(cc *aries.C) error {
 			lh := &leafHit{tag: h, rel: cc.Rel()}
-			if hit != nil {
-				*hit = lh
+			if rec != nil {
+				rec(lh)
 			} else {
 				cc.Data["leaf"] = lh // concurrent mode: nothing shared
 			}
@@ -445,65 +548,69 @@ func buildRouters(c *Case, hit **leafHit) ([]*aries.Router, [][]int) {
 	}
 	roks := make([][]int, n)
 	for i, def := range c.Routers {
-		r := routers[i]
 		roks[i] = []int{}
 		for j := range def.Ops {
-			op := &def.Ops[j]
-			var err error
-			p := guard(func() {
-				switch op.Op {
-				case "index":
-					r.Index(svc(op))
-				case "default":
-					r.Default(svc(op))
-				case "file":
-					err = r.File(op.P, svc(op))
-				case "mfile":
-					err = r.MethodFile(op.M, op.P, svc(op))
-				case "get":
-					err = r.Get(op.P, svc(op))
-				case "post":
-					err = r.Post(op.P, svc(op))
-				case "dirsvc":
-					if op.Nil {
-						err = r.DirService(op.P, nil)
-					} else {
-						err = r.DirService(op.P, svc(op))
-					}
-				case "dir":
-					err = r.Dir(op.P, svc(op))
-				case "jsoncall", "call":
-					// the reflective wrapper around func(*C) error
-					f := svc(op)
-					fn := func(cc *aries.C) error { return f(cc) }
-					if op.Op == "call" {
-						r.Call(op.P, fn)
-					} else {
-						err = r.JSONCall(op.P, fn)
-					}
-				}
-			})
-			switch {
-			case p != "":
-				roks[i] = append(roks[i], 2)
-			case err != nil:
-				roks[i] = append(roks[i], 0)
-			default:
-				roks[i] = append(roks[i], 1)
-			}
+			roks[i] = append(roks[i], regRouterOp(routers[i], &def.Ops[j], svc))
 		}
 	}
 	return routers, roks
+}
+
+// regRouterOp performs one registration: 1 ok, 0 refused, 2 panic.
+func regRouterOp(r *aries.Router, op *RouterOp, svc func(*RouterOp) aries.Func) int {
+	var err error
+	p := guard(func() {
+		switch op.Op {
+		case "index":
+			r.Index(svc(op))
+		case "default":
+			r.Default(svc(op))
+		case "file":
+			err = r.File(op.P, svc(op))
+		case "mfile":
+			err = r.MethodFile(op.M, op.P, svc(op))
+		case "get":
+			err = r.Get(op.P, svc(op))
+		case "post":
+			err = r.Post(op.P, svc(op))
+		case "dirsvc":
+			if op.Nil {
+				err = r.DirService(op.P, nil)
+			} else {
+				err = r.DirService(op.P, svc(op))
+			}
+		case "dir":
+			err = r.Dir(op.P, svc(op))
+		case "jsoncall", "call":
+			// the reflective wrapper around func(*C) error
+			f := svc(op)
+			fn := func(cc *aries.C) error { return f(cc) }
+			if op.Op == "call" {
+				r.Call(op.P, fn)
+			} else {
+				err = r.JSONCall(op.P, fn)
+			}
+		}
+	})
+	switch {
+	case p != "":
+		return 2
+	case err != nil:
+		return 0
+	}
+	return 1
 }
 
 func runRouter(c *Case) {
 	o := &Obs{}
 	c.Obs = o
 	var hit *leafHit
-	routers, roks := buildRouters(c, &hit)
+	nran := 0
+	routers, roks := buildRoutersRec(c, func(lh *leafHit) { hit = lh; nran++ })
 	o.ROks = roks
 	for _, q := range c.Reqs {
 		hit = nil
+		nran = 0
 		req := &http.Request{
 			Method: q.Method, URL: &url.URL{Path: q.Path}, Host: "h",
 			Header: make(http.Header),
@@ -534,7 +641,7 @@ func runRouter(c *Case) {
 				err = routers[0].Serve(cc)
 			})
 		}
-		ro := ReqObs{Tag: -1}
+		ro := ReqObs{Tag: -1, N: nran}
 		if p != "" {
 			ro.Err = "panic"
 		} else {
@@ -872,8 +979,173 @@ func concBuild(c *Case) (serve func(q int) string, nq int) {
 	return serve, nq
 }
 
+// authRouter is an Auth whose Serve is a router (or misses) and whose Setup
+// installs the identity of the case.
+type authRouter struct {
+	r    *aries.Router
+	u    string
+	l    int
+}
+
+func (a *authRouter) Serve(cc *aries.C) error {
+	if a.r == nil {
+		return aries.Miss
+	}
+	return a.r.Serve(cc)
+}
+
+func (a *authRouter) Setup(cc *aries.C) error {
+	cc.User, cc.UserLevel = a.u, a.l
+	return nil
+}
+
+// runSeq hands ONE context to several routers in a row: directly, or as the
+// Auth / Resource / Guest / User / Admin of a ServiceSet (the way the
+// repository composes them: authgate's ServiceSet{Auth: gate, Guest: r, User: u}).
+func runSeq(c *Case) {
+	o := &Obs{Seqs: []SeqObs{}}
+	c.Obs = o
+	var hits []LeafObs
+	routers, roks := buildRoutersRec(c, func(lh *leafHit) {
+		hits = append(hits, LeafObs{Tag: lh.tag, Rel: lift(lh.rel)})
+	})
+	o.ROks = roks
+	at := func(i int) *aries.Router {
+		if i < len(c.Seq) && c.Seq[i] >= 0 && c.Seq[i] < len(routers) {
+			return routers[c.Seq[i]]
+		}
+		return nil
+	}
+	svcAt := func(i int) aries.Service {
+		if r := at(i); r != nil {
+			return r
+		}
+		return nil
+	}
+	for _, q := range c.Reqs {
+		hits = []LeafObs{}
+		req := &http.Request{Method: q.Method, URL: &url.URL{Path: q.Path}, Host: "h", Header: make(http.Header)}
+		var err error
+		var cc *aries.C
+		p := guard(func() {
+			cc = aries.NewContext(httptest.NewRecorder(), req)
+			if c.Mode == "tiers" {
+				set := &aries.ServiceSet{
+					Auth:     &authRouter{r: at(0), u: c.U0, l: c.L0},
+					Resource: svcAt(1), Guest: svcAt(2), User: svcAt(3), Admin: svcAt(4),
+				}
+				err = set.Serve(cc)
+				return
+			}
+			err = aries.Miss
+			for i := range c.Seq {
+				if r := at(i); r != nil {
+					if err = r.Serve(cc); err != aries.Miss {
+						return
+					}
+				}
+			}
+		})
+		so := SeqObs{Hits: hits}
+		if p != "" {
+			so.Err = "panic"
+		} else {
+			so.Err = errName(err)
+			so.RelAfter = lift(cc.Rel())
+		}
+		o.Seqs = append(o.Seqs, so)
+	}
+}
+
+// runSteps keeps ONE Mux / Router / HostMux for the whole case and mixes
+// registrations with requests (a handler registered after serving started
+// must be found; an answer must not be remembered past a registration).
+func runSteps(c *Case) {
+	o := &Obs{Steps: []StepObs{}}
+	c.Obs = o
+	m := aries.NewMux()
+	r := aries.NewRouter()
+	hm := aries.NewHostMux()
+	var hits []leafHit
+	tagger := func(tag int) aries.Func {
+		return func(cc *aries.C) error {
+			hits = append(hits, leafHit{tag: tag}) // a Mux is served with a bare C: no route to ask for
+			return nil
+		}
+	}
+	svc := func(op *RouterOp) aries.Func {
+		if op.Nil {
+			return nil
+		}
+		h, e := op.H, op.E
+		return func(cc *aries.C) error {
+			hits = append(hits, leafHit{tag: h, rel: cc.Rel()})
+			return leafError(e)
+		}
+	}
+	for i := range c.Steps {
+		st := &c.Steps[i]
+		so := StepObs{Tag: -1}
+		switch {
+		case st.Mux != nil:
+			var err error
+			p := guard(func() {
+				switch st.Mux.Op {
+				case "prefix":
+					err = m.Prefix(st.Mux.S, tagger(st.Mux.F))
+				case "exact":
+					err = m.Exact(st.Mux.S, tagger(st.Mux.F))
+				case "dir":
+					err = m.Dir(st.Mux.S, tagger(st.Mux.F))
+				}
+			})
+			switch {
+			case p != "":
+				so.Ok = 2
+			case err == nil:
+				so.Ok = 1
+			}
+		case st.Rop != nil:
+			so.Ok = regRouterOp(r, st.Rop, svc)
+		case st.HSet != nil:
+			hm.Set(st.HSet.H, tagger(st.HSet.F))
+			so.Ok = 1
+		case st.Serve:
+			hits = nil
+			var err error
+			p := guard(func() {
+				switch c.On {
+				case "mux":
+					err = m.Serve(&aries.C{Path: st.Path, Data: make(map[string]interface{})})
+				case "router":
+					req := &http.Request{Method: st.Method, URL: &url.URL{Path: st.Path}, Host: "h", Header: make(http.Header)}
+					err = r.Serve(aries.NewContext(httptest.NewRecorder(), req))
+				case "host":
+					req := &http.Request{Method: "GET", URL: &url.URL{Path: "/"}, Host: st.Path, Header: make(http.Header)}
+					err = hm.Serve(aries.NewContext(httptest.NewRecorder(), req))
+				}
+			})
+			if p != "" {
+				so.Err = "panic"
+			} else {
+				so.Err = errName(err)
+			}
+			so.N = len(hits)
+			if len(hits) > 0 {
+				so.Tag = hits[len(hits)-1].tag
+				so.Rel = lift(hits[len(hits)-1].rel)
+			}
+		}
+		o.Steps = append(o.Steps, so)
+	}
+}
+
 func runCase(c *Case) {
 	switch c.Kind {
+	case "seq":
+		runSeq(c)
+	case "steps":
+		runSteps(c)
 	case "mux":
 		runMux(c)
 	case "trie":
@@ -953,6 +1225,21 @@ func liftCase(c *Case) {
 		c.HSets[i].H = lift1(c.HSets[i].H)
 	}
 	c.HReqs = lifts1(c.HReqs)
+	for i := range c.Steps {
+		st := &c.Steps[i]
+		if st.Mux != nil {
+			st.Mux.S = lift1(st.Mux.S)
+		}
+		if st.Rop != nil {
+			st.Rop.P = lift1(st.Rop.P)
+			st.Rop.M = lift1(st.Rop.M)
+		}
+		if st.HSet != nil {
+			st.HSet.H = lift1(st.HSet.H)
+		}
+		st.Path = lift1(st.Path)
+		st.Method = lift1(st.Method)
+	}
 	for i := range c.Raws {
 		c.Raws[i].Method = lift1(c.Raws[i].Method)
 		c.Raws[i].Target = lift1(c.Raws[i].Target)
@@ -1038,7 +1325,10 @@ func genRouterDefs(r *hx.Rng, rich bool) []RouterDef {
 					op.Op, op.M = []string{"jsoncall", "call"}[r.Intn(2)], ""
 				}
 				if op.H < 1000 && r.Intn(5) == 0 {
-					op.E = []string{"notfound", "internal", "unauth", "invalid", "plain"}[r.Intn(5)]
+					op.E = []string{"notfound", "internal", "unauth", "invalid", "plain", "miss"}[r.Intn(6)]
+				}
+				if op.Op == "mfile" && r.Intn(3) == 0 {
+					op.M = []string{"PUT", "get", "HEAD", "DELETE"}[r.Intn(4)] // any method string, compared exactly
 				}
 				if r.Intn(20) == 0 && op.Op != "jsoncall" && op.Op != "call" {
 					op.Nil = true
@@ -1049,6 +1339,17 @@ func genRouterDefs(r *hx.Rng, rich bool) []RouterDef {
 		if r.Intn(2) == 0 {
 			ops = append(ops, RouterOp{Op: "index", H: tag, Nil: rich && r.Intn(12) == 0})
 			tag++
+		}
+		if rich {
+			// Index / Default called again: the last call decides, a nil Func resets
+			for x := r.Intn(3); x > 0; x-- {
+				op := RouterOp{Op: []string{"index", "default"}[r.Intn(2)], H: tag, Nil: r.Intn(3) == 0}
+				if r.Intn(4) == 0 {
+					op.E = "miss"
+				}
+				ops = append(ops, op)
+				tag++
+			}
 		}
 		if r.Intn(3) == 0 {
 			h := tag
@@ -1153,6 +1454,41 @@ func genCases(seed uint64, tier string) []Case {
 				{Method: "GET", Target: "/e", Host: hp("shanhu.io")}, {Method: "GET", Target: "/i", Host: hp("shanhu.io")},
 				{Method: "GET", Target: "/p", Host: hp("shanhu.io")}, {Method: "GET", Target: "a/b", Host: hp("shanhu.io")},
 			}})
+	}
+
+	// round 3 corpus: one context through two routers; the first matches "a" of
+	// /a/b and then misses, the second has "b" registered (finding: it served /a/b)
+	for _, mode := range []string{"direct", "tiers"} {
+		seq := []int{0, 1, 2}
+		if mode == "tiers" {
+			seq = []int{-1, -1, 0, 1, 2}
+		}
+		add(Case{Stream: "corpus", Kind: "seq", Mode: mode, Seq: seq, U0: "adm", L0: 1,
+			Routers: []RouterDef{
+				{Ops: []RouterOp{{Op: "file", P: "a", H: 1}, {Op: "dir", P: "d", H: 1002}}},
+				{Ops: []RouterOp{{Op: "file", P: "b", H: 2}, {Op: "file", P: "x", H: 3}}},
+				{Ops: []RouterOp{{Op: "file", P: "y", H: 4}, {Op: "index", H: 5}, {Op: "file", P: "a/b", H: 6}, {Op: "file", P: "m", H: 7, E: "miss"}}},
+			},
+			Reqs: []Req{{"/a/b", "GET"}, {"/a", "GET"}, {"/b", "GET"}, {"/a/b/", "GET"}, {"/d/x", "GET"}, {"/d/y", "GET"},
+				{"/d", "GET"}, {"/d/b", "GET"}, {"/a/x", "GET"}, {"/d/m", "GET"}, {"/m", "GET"}, {"/", "GET"}}})
+	}
+	// ... and a Mux / Router / HostMux that keeps being registered on after it served
+	{
+		sp := func(p string) Step { return Step{Serve: true, Path: p, Method: "GET"} }
+		add(Case{Stream: "corpus", Kind: "steps", On: "mux", Steps: []Step{
+			sp("/a/b"), {Mux: &MuxOp{Op: "prefix", S: "/a", F: 1}}, sp("/a/b"), {Mux: &MuxOp{Op: "prefix", S: "/a/", F: 2}}, sp("/a/b"),
+			{Mux: &MuxOp{Op: "exact", S: "/a/b", F: 3}}, sp("/a/b"), sp("/a/bc"), {Mux: &MuxOp{Op: "prefix", S: "/a/", F: 4}}, sp("/a/bc"),
+			{Mux: &MuxOp{Op: "dir", S: "/a/b", F: 5}}, sp("/a/b/c"), sp("/a/b")}})
+		add(Case{Stream: "corpus", Kind: "steps", On: "router", Steps: []Step{
+			sp("/a"), {Rop: &RouterOp{Op: "file", P: "a", H: 1}}, sp("/a"), {Rop: &RouterOp{Op: "file", P: "a", H: 2}}, sp("/a"),
+			{Rop: &RouterOp{Op: "dir", P: "/a/", H: 3}}, sp("/a/b"), {Rop: &RouterOp{Op: "dir", P: "a/b", H: 4}}, sp("/a/b"), sp("/a/b/c"),
+			sp("/"), {Rop: &RouterOp{Op: "index", H: 5}}, sp("/"), {Rop: &RouterOp{Op: "index", H: 6}}, sp("/"),
+			{Rop: &RouterOp{Op: "index", H: 7, Nil: true}}, sp("/"), {Rop: &RouterOp{Op: "default", H: 8}}, sp("/"), sp("/zz"),
+			{Rop: &RouterOp{Op: "default", H: 9, Nil: true}}, sp("/zz"), {Rop: &RouterOp{Op: "file", P: "zz", H: 10, Nil: true}}, sp("/zz"),
+			{Rop: &RouterOp{Op: "file", P: "zz", H: 11}}, sp("/zz")}})
+		add(Case{Stream: "corpus", Kind: "steps", On: "host", Steps: []Step{
+			sp("shanhu.io"), {HSet: &HostSet{H: "shanhu.io", F: 1}}, sp("shanhu.io"), sp("Shanhu.io"), sp("shanhu.io."), sp("shanhu.io:443"),
+			{HSet: &HostSet{H: "shanhu.io", F: 2}}, sp("shanhu.io"), {HSet: &HostSet{H: "shanhu.io:443", F: 3}}, sp("shanhu.io:443"), sp("shanhu.io")}})
 	}
 
 	// --- mux: all ordered prefix sets of size <= 2 (or 3) over {a,b,/}^{1..3}
@@ -1349,9 +1685,156 @@ func genCases(seed uint64, tier string) []Case {
 		var reqs []Req
 		for i := 0; i < 12; i++ {
 			p := "/" + reqPaths[r.Intn(len(reqPaths))]
-			reqs = append(reqs, Req{Path: p, Method: []string{"GET", "POST", "POST"}[r.Intn(3)]})
+			reqs = append(reqs, Req{Path: p, Method: []string{"GET", "POST", "POST", "PUT", "get", "HEAD", "DELETE", "OPTIONS"}[r.Intn(8)]})
 		}
 		add(Case{Stream: "router-rich", Kind: "router", Routers: defs, Reqs: reqs})
+	}
+
+	// --- round 3: ONE context handed to several routers in a row (directly, and
+	// as the Auth/Resource/Guest/User/Admin of a ServiceSet)
+	seqPaths := allStrings("ab/", 0, 5)
+	for n := 0; n < nRouter/2; n++ {
+		defs := genRouterDefs(r, n%2 == 0)
+		for len(defs) < 2 {
+			// a further router: its own leaf tags, no references to sub-routers
+			d := genRouterDefs(r, false)[0]
+			for j := range d.Ops {
+				d.Ops[j].H = 500 + 20*len(defs) + j
+			}
+			defs = append(defs, d)
+		}
+		var reqs []Req
+		for i := 0; i < 12; i++ {
+			p := "/" + seqPaths[r.Intn(len(seqPaths))]
+			if r.Intn(2) == 0 {
+				// two registered routes of different routers, one after the other
+				var cand []string
+				for _, d := range defs {
+					for _, op := range d.Ops {
+						if op.P != "" {
+							cand = append(cand, strings.Trim(op.P, "/"))
+						}
+					}
+				}
+				if len(cand) > 0 {
+					p = "/" + pick(r, cand) + "/" + pick(r, cand)
+					if r.Intn(4) == 0 {
+						p += "/"
+					}
+				}
+			}
+			reqs = append(reqs, Req{Path: p, Method: []string{"GET", "GET", "POST"}[r.Intn(3)]})
+		}
+		c := Case{Stream: "seq-direct", Kind: "seq", Mode: "direct", Routers: defs, Reqs: reqs}
+		if n%2 == 1 {
+			c.Stream, c.Mode = "seq-tiers", "tiers"
+			for i := 0; i < 5; i++ {
+				x := r.Intn(len(defs)+1) - 1 // -1: this tier is nil
+				if i == 0 && r.Bool() {
+					x = -1
+				}
+				c.Seq = append(c.Seq, x)
+			}
+			id := []struct {
+				u string
+				l int
+			}{{"", 0}, {"u", 0}, {"adm", 1}, {"adm", 1}}[r.Intn(4)]
+			c.U0, c.L0 = id.u, id.l
+		} else {
+			for i := 2 + r.Intn(3); i > 0; i-- {
+				c.Seq = append(c.Seq, r.Intn(len(defs)))
+			}
+		}
+		add(c)
+	}
+
+	// --- round 3: one long-lived Mux / Router / HostMux, registrations mixed with requests
+	for n := 0; n < nRouter/2; n++ {
+		on := []string{"mux", "router", "host"}[n%3]
+		c := Case{Stream: "steps-" + on, Kind: "steps", On: on}
+		var pool []string
+		tag := 1
+		k := 6 + r.Intn(14)
+		for i := 0; i < k; i++ {
+			serve := len(pool) > 0 && r.Intn(5) < 3
+			switch on {
+			case "mux":
+				alpha := "ab/"
+				if serve {
+					p := pool[r.Intn(len(pool))]
+					switch r.Intn(4) {
+					case 0:
+						p += randStr(r, alpha, 2)
+					case 1:
+						p = randStr(r, alpha, 5)
+					case 2:
+						if len(p) > 0 {
+							p = p[:r.Intn(len(p)+1)]
+						}
+					}
+					c.Steps = append(c.Steps, Step{Serve: true, Path: p})
+					continue
+				}
+				s := randStr(r, alpha, 4)
+				if len(pool) > 0 && r.Intn(3) == 0 {
+					s = pool[r.Intn(len(pool))] + randStr(r, alpha, 2)
+				}
+				pool = append(pool, s)
+				c.Steps = append(c.Steps, Step{Mux: &MuxOp{Op: []string{"prefix", "prefix", "exact", "dir"}[r.Intn(4)], S: s, F: tag}})
+				tag++
+			case "router":
+				if serve {
+					p := "/" + pool[r.Intn(len(pool))]
+					switch r.Intn(4) {
+					case 0:
+						p += "/" + []string{"a", "b"}[r.Intn(2)]
+					case 1:
+						p += "/"
+					case 2:
+						p = "/" + randStr(r, "ab/", 4)
+					}
+					c.Steps = append(c.Steps, Step{Serve: true, Path: p, Method: []string{"GET", "POST"}[r.Intn(2)]})
+					continue
+				}
+				var sg []string
+				for x := 1 + r.Intn(3); x > 0; x-- {
+					sg = append(sg, []string{"a", "b"}[r.Intn(2)])
+				}
+				p := strings.Join(sg, "/")
+				pool = append(pool, p)
+				op := &RouterOp{Op: []string{"file", "dir", "get", "post", "index", "default"}[r.Intn(6)], P: p, H: tag}
+				if op.Op == "index" || op.Op == "default" {
+					op.P = ""
+					op.Nil = r.Intn(4) == 0
+				} else if r.Intn(12) == 0 {
+					op.Nil = true
+				}
+				if r.Intn(8) == 0 {
+					op.E = []string{"miss", "internal"}[r.Intn(2)]
+				}
+				c.Steps = append(c.Steps, Step{Rop: op})
+				tag++
+			default:
+				hostsAll := []string{"shanhu.io", "Shanhu.IO", "shanhu.io:443", "shanhu.io.", "h8liu.io", ""}
+				if serve {
+					c.Steps = append(c.Steps, Step{Serve: true, Path: pick(r, hostsAll)})
+					continue
+				}
+				h := pick(r, hostsAll)
+				pool = append(pool, h)
+				c.Steps = append(c.Steps, Step{HSet: &HostSet{H: h, F: tag}})
+				tag++
+			}
+		}
+		// every case ends with requests for everything registered
+		for _, p := range pool {
+			st := Step{Serve: true, Path: p, Method: "GET"}
+			if on == "router" {
+				st.Path = "/" + p
+			}
+			c.Steps = append(c.Steps, st)
+		}
+		add(c)
 	}
 
 	// --- round 2: raw request lines through a real http.Server: escapes,
